@@ -175,6 +175,19 @@ def matches_finding(ctx, kind, detail):
 
 def run(ctx):
     res = common.proof_gate(ctx)
+    # part b (parentheses) builds on builder-C08's parser model + lemmas: audited separately; if that
+    # model does not build (another builder mid-edit) it is C08's failure, and part b is listed as
+    # not checked in this run
+    partb = "checked"
+    ok08, _ = common.build_lean(["SamVerif.Lemmas.Fmt"])
+    if ok08:
+        rb = common.audit("C13b")
+        res["obligations"] += rb["obligations"]; res["discharged"] += rb["discharged"]
+        if rb["failed"]:
+            ctx.violation("proof obligations of Props/C13b.lean no longer check: " + "; ".join(f"{n} ({w})" for n, w in rb["failed"][:4]),
+                          {"broken_theorems": rb["failed"], "log": rb["log"][-3000:]}, no_input=True)
+    else:
+        partb = "not checked in this run: SamVerif.Lemmas.Fmt (C08's parser model) does not build"
     rng = ctx.rng
     if not os.path.exists(common.harness_bin(PROP)) or not os.path.exists(common.driver_bin(PROP)):
         return ctx.finish(res, trusted=common.TRUSTED_COMMON)
@@ -364,8 +377,9 @@ def run(ctx):
         "distinct_nontrivial": len(set(t for t, a, _ in ssa_res if re.search(r"M\[\d", a))),
         "rule": "ssa: distinct modules (repo tests/*.sam, generated typed programs with every binding form, ill-scoped identifier-swap mutants) whose analysis resolved at least one use; sig: modules with random duplicate class/member/variant names; metamorphic: generated accepted+rejected programs (generic callees with inferred type arguments taking multi-parameter lambdas, method references, nested generic calls, tuples, generic methods) x rewrites {rename-local, reorder, paren x2, wrap (block) x2, annotate-one per site (lambda parameter / let / type-argument list), annotate-subset, annotate-all (accepted only), split-modules}; behaviour: wasm output under Node 22",
         "samples": samples, "traces_validated_against_impl": len(ssa_res) + len(sig_res),
-        "histograms": hist,
-        "partial": ["scope_rename_binding_partial holds under the side condition that the new name is fresh for the module",
+        "histograms": hist, "part_b_parentheses": partb,
+        "partial": ["toplevel_order_invariant / toplevel_block_context: every class body resolves identically in any order of the toplevels; the order in which per-class results are appended to the result tables is not covered",
+                    "block_wrap_resolution: side condition = the wrapped tree binds nothing at its own top level (closedAt 0, decidable)",
                     "signature_perm_invariant requires pairwise distinct names; with duplicates the last declaration wins (signature_dup_order_counterexample) — exactly the case in which the checker reports a name collision"],
         "pending": ["annotation / explicit-type-argument / module-splitting / block-wrapping rewrites go through the inference engine and are covered by the metamorphic oracle only (each annotation site individually, in random subsets, and all at once)"]})
     ctx.assumptions += ["locations of distinct syntax nodes are distinct (the harness numbers Locations)",
